@@ -183,3 +183,34 @@ func reduceFrac(s string) string {
 	}
 	return r.Num().String() + "/" + r.Denom().String()
 }
+
+// compilePair type-checks two wrapper files as files of one destination package (plus the
+// declaration of Symbols) and returns the errors that mention a redeclaration.
+func (c *checker) compilePair(a, b []byte) []string {
+	c.mu.Lock()
+	defer c.mu.Unlock()
+	fset := token.NewFileSet()
+	fa, err := parser.ParseFile(fset, "wrapper_a.go", a, 0)
+	if err != nil {
+		return []string{"parse: " + err.Error()}
+	}
+	fb, err := parser.ParseFile(fset, "wrapper_b.go", b, 0)
+	if err != nil {
+		return []string{"parse: " + err.Error()}
+	}
+	cf, err := parser.ParseFile(fset, "companion.go", "package "+fa.Name.Name+"\n\nimport \"reflect\"\n\nvar Symbols = map[string]map[string]reflect.Value{}\n", 0)
+	if err != nil {
+		return []string{"companion: " + err.Error()}
+	}
+	var out []string
+	conf := types.Config{Importer: wimp{c}, Error: func(err error) {
+		if strings.Contains(err.Error(), "redeclared") {
+			out = append(out, err.Error())
+		}
+	}}
+	conf.Check("wrapper.test/"+fa.Name.Name, fset, []*ast.File{fa, fb, cf}, nil)
+	if len(out) > 3 {
+		out = out[:3]
+	}
+	return out
+}
